@@ -312,6 +312,10 @@ def structures(tier, seed, prop="C01"):
     else:
         for g in g4:
             out.append((4, g, 1))
+        g5 = list(H.all_graphs_with_anchor(5))
+        rng5 = np.random.default_rng(55 + seed)
+        for g in [g5[i] for i in rng5.choice(len(g5), 40 if prop != "C02" else 12, replace=False)]:
+            out.append((5, sorted(g), 1))
         rng = np.random.default_rng(5 + seed)
         for g in [g4[i] for i in rng.choice(len(g4), 12, replace=False)]:
             out.append((4, g, 2))
@@ -394,7 +398,7 @@ def glue_paths(n, edges, m, second=None, junk_frames=False, max_paths=48, extra_
                 "shares": shares, "res": res, "arg": arg, "picks": picks}
 
     pre = [SV > 0, SV <= 2] + distinct_pre("p", n) + list(extra_pre)
-    paths = S.explore(run, assumptions=pre, max_paths=max_paths, feas_timeout_ms=400)
+    paths = S.explore(run, assumptions=pre, max_paths=max_paths, feas_timeout_ms=400, max_secs=_EXPLORE_SECS[0])
     return paths, ref, tgt
 
 
@@ -1451,7 +1455,11 @@ def task_numeric_law(prop, tier, seed):
 # ---------------------------------------------------------------------------
 
 
+_EXPLORE_SECS = [12.0]
+
+
 def tasks(prop, tier, seed):
+    _EXPLORE_SECS[0] = 12.0 if tier == "quick" else 60.0       # a structure normally takes < 1 s; beyond this it is reported undecided
     t = []
     if prop == "C01":
         t.append(("lemma/rows-cols", lambda: lemma_rows_cols("C01/lemma"), (), 300.0))
